@@ -380,6 +380,13 @@ class Check:
         self.seed = seed
         self.level = level
         self.t0 = time.time()
+        # replay files of earlier runs of this check would only confuse: each run writes its own
+        import glob
+        for f in glob.glob(os.path.join(REPLAYS, "%s-%s-*.json" % (pid, tier))):
+            try:
+                os.remove(f)
+            except OSError:
+                pass
         self.states = 0
         self.transitions = 0
         self.traces = 0
